@@ -749,6 +749,34 @@ def mknot(x):
     return ('un', 'Not', x)
 
 
+# parameters of the function being summarised that it uses as array indices or range bounds (set by refspec.Summary for the time it
+# summarises one function): they are integers, or the function would raise
+INT_PARAMS: set = set()
+
+
+def int_params(fn):
+    """names of parameters used as an element of a subscript index or as an argument of range() in the function"""
+    import ast as _ast
+    params = {a.arg for a in fn.args.posonlyargs + fn.args.args + fn.args.kwonlyargs}
+    out = set()
+
+    def names_of(e):
+        if isinstance(e, _ast.Name):
+            return {e.id}
+        if isinstance(e, _ast.BinOp) and isinstance(e.op, (_ast.Add, _ast.Sub, _ast.Mult, _ast.FloorDiv, _ast.Mod)):
+            return names_of(e.left) | names_of(e.right)
+        if isinstance(e, _ast.Tuple):
+            return set().union(*[names_of(x) for x in e.elts]) if e.elts else set()
+        return set()
+    for n in _ast.walk(fn):
+        if isinstance(n, _ast.Subscript):
+            out |= names_of(n.slice)
+        elif isinstance(n, _ast.Call) and isinstance(n.func, _ast.Name) and n.func.id == 'range':
+            for a in n.args:
+                out |= names_of(a)
+    return out & params
+
+
 def is_int_term(t, depth=0):
     """the term is integer-valued whatever the inputs (lengths, shapes, range variables, integer constants and their sums, differences
     and products): for such operands `a <= b` is exactly `not a > b` (no NaN)"""
@@ -757,6 +785,8 @@ def is_int_term(t, depth=0):
     h = t[0]
     if h == 'const':
         return isinstance(t[1], int) and not isinstance(t[1], bool)
+    if h == 'param':
+        return t[1] in INT_PARAMS
     if h == 'call':
         return t[1] in ('len', 'int', '.count', '.index')
     if h == 'proj':
